@@ -1157,6 +1157,13 @@ def dict_method(ex, d, meth, args, kw, st):
         return dict(d)
     if meth == 'pop':
         return d.pop(concrete(args[0]), *(args[1:]))
+    if meth == 'update':
+        for a in args:
+            if not isinstance(a, dict):
+                raise Unsupported('dict.update with a non-dict')
+            d.update(a)
+        d.update(kw)
+        return None
     raise Unsupported(f'dict.{meth}')
 
 
